@@ -15,7 +15,7 @@ for ID in $IDS; do
     ./check $P quick > build/selftest_${ID}_${P}.log 2>&1; RC=$?
     if [ $RC -eq 0 ] || ! grep -q "^VIOLATION property=$P" build/selftest_${ID}_${P}.log; then echo "$ID: NOT detected by $P any more"; OK=0; FAIL=1; fi
   done
-  git -C /repo checkout -- .
+  git -C /repo checkout -- . && git -C /repo clean -fdq rust
   [ $OK -eq 1 ] && echo "$ID: detected by $PROPS"
 done
 (cd harness && cargo build > /dev/null 2>&1)
